@@ -60,12 +60,15 @@ func (s *Scenario) RunReal(runs int) (done int, violation string) {
 					complete = false
 				}
 			}
-			if complete && !quiescent(base) {
-				// the markers are there but some goroutine of the scenario can still run (it may be about to log, or
+			var cost time.Duration
+			if complete {
+				// the markers are there but some goroutine of the scenario may still be able to run (it may be about to log, or
 				// be starved by a busy machine): the oracle speaks about terminal states, so it is applied only once
 				// every other goroutine has finished or is blocked for good. This is read off the goroutines'
 				// states, not off a clock.
-				complete = false
+				t0 := time.Now()
+				complete = quiescent(base)
+				cost = time.Since(t0)
 			}
 			if complete {
 				o = env.Snapshot()
@@ -93,7 +96,9 @@ func (s *Scenario) RunReal(runs int) (done int, violation string) {
 				}
 				return done, ""
 			}
-			time.Sleep(50 * time.Microsecond)
+			// the rest test walks every goroutine of the process (scenarios may legitimately leave blocked ones behind): it must
+			// not eat the processor it is waiting for
+			time.Sleep(max(50*time.Microsecond, 2*cost))
 		}
 	}
 	return done, ""
@@ -137,8 +142,12 @@ func quiescent(base int) bool {
 		case "chan receive", "chan send", "select", "chan receive (nil chan)", "chan send (nil chan)", "select (no cases)",
 			"sync.WaitGroup.Wait", "semacquire", "sync.Mutex.Lock", "sync.RWMutex.RLock", "sync.RWMutex.Lock", "sync.Cond.Wait":
 		default:
+			LastBusy = line
 			return false
 		}
 	}
 	return true
 }
+
+// LastBusy is the header line of the goroutine that kept the last rest test from succeeding (diagnostics).
+var LastBusy string
